@@ -2,8 +2,9 @@
    _find_cross_origin_intergenic, find_all_orfs (chunk extraction incl. windows starting before the
    origin, both strands with reverse complement), create_feature_from_location (label, translation
    with the first residue forced to M), Record.get_aa_translation_from_location,
-   _overlapping_cds_features (every CDS of the record tested with Feature.overlaps_with), Feature.__lt__, and
-   Biopython's location.extract / reverse_complement / translate (standard table, unambiguous DNA);
+   _overlapping_cds_features (every CDS of the record tested with Feature.overlaps_with), _overlap_size and the
+   max_overlap test on the ORFs of an origin-crossing area (repair of FC15b), Feature.__lt__, and
+   Biopython's location.extract / reverse_complement / translate (standard table, DNA with IUPAC ambiguity codes);
    followed by the decidable specification evaluated on the implementation's outputs.
    DNA is a list of character codes; the codon tables come from Gen/Tables_gen.v. *)
 From ASV Require Export Base Loc.
@@ -137,19 +138,33 @@ Definition chunk (g : list Z) (start end_ : Z) : list Z :=
 Definition window (g : list Z) (start end_ direction : Z) : list Z :=
   if direction =? -1 then revcomp (chunk g start end_) else chunk g start end_.
 
-(* ---------- translation (Bio.Seq.translate on unambiguous DNA, standard/bacterial table) ---------- *)
-Definition base_idx (c : Z) : option Z :=
-  match upper c with 84 => Some 0 | 67 => Some 1 | 65 => Some 2 | 71 => Some 3 | _ => None end.
+(* ---------- translation (Bio.Seq.translate, standard/bacterial table, IUPAC DNA letters of both cases) ---------- *)
+(* the bases an IUPAC letter stands for (Bio.Data.IUPACData.ambiguous_dna_values), as indexes into TCAG; the text is
+   upper-cased by Biopython first; no base for any other character (Biopython raises TranslationError there, the model
+   says X: outside the alphabet of every statement) *)
+Definition base_set (c : Z) : list Z :=
+  match upper c with
+  | 84 => [0] | 67 => [1] | 65 => [2] | 71 => [3]                       (* T C A G *)
+  | 77 => [2; 1] | 82 => [2; 3] | 87 => [2; 0]                           (* M = AC, R = AG, W = AT *)
+  | 83 => [1; 3] | 89 => [1; 0] | 75 => [3; 0]                           (* S = CG, Y = CT, K = GT *)
+  | 86 => [2; 1; 3] | 72 => [2; 1; 0] | 68 => [2; 3; 0] | 66 => [1; 3; 0] (* V = ACG, H = ACT, D = AGT, B = CGT *)
+  | 78 => [0; 1; 2; 3]                                                   (* N *)
+  | _ => []
+  end.
 (* FFLLSSSSYY**CC*WLLLLPPPPHHQQRRRRIIIMTTTTNNKKSSRRVVVVAAAADDEEGGGG over TCAG *)
 Definition aa_table : list Z :=
   [70;70;76;76;83;83;83;83;89;89;42;42;67;67;42;87;76;76;76;76;80;80;80;80;72;72;81;81;82;82;82;82;
    73;73;73;77;84;84;84;84;78;78;75;75;83;83;82;82;86;86;86;86;65;65;65;65;68;68;69;69;71;71;71;71].
-(* a codon with a letter outside ACGT is X here (Biopython resolves some ambiguous codons; the
-   correspondence for translations is run on ACGT/acgt genomes only) *)
+(* a codon translates to the residue (or '*') that ALL the codons it stands for translate to; when they differ the
+   result is X: Biopython answers B, Z, J or X for a mix of residues (Record.get_aa_translation_from_location turns B, Z
+   and J into X) and X for a mix of residues and stops.  TAR and TRA are the ambiguous codons that are stops whatever
+   the base is: translation ends there - scan_orfs has them in STOP_CODONS since the repair of FC15c *)
 Definition translate_codon (a b c : Z) : Z :=
-  match base_idx a, base_idx b, base_idx c with
-  | Some i, Some j, Some k => nth (Z.to_nat (16 * i + 4 * j + k)) aa_table 88
-  | _, _, _ => 88
+  let poss := flat_map (fun i => flat_map (fun j => map (fun k => nth (Z.to_nat (16 * i + 4 * j + k)) aa_table 88)
+                                                        (base_set c)) (base_set b)) (base_set a) in
+  match poss with
+  | [] => 88
+  | p :: r => if forallb (Z.eqb p) r then p else 88
   end.
 Fixpoint translate (to_stop : bool) (l : list Z) : list Z :=
   match l with
@@ -193,6 +208,43 @@ Definition create_feature (g : list Z) (l : loc) : res feature :=
   match t with
   | [] => Err E_Index                       (* translation[0] *)
   | c :: r => Ok (mkFeature l label (if c =? 77 then t else 77 :: r))
+  end.
+
+(* ---------- get_trimmed_orf ---------- *)
+(* the location without its first [remaining] bases in the order of translation: the parts are visited in the order
+   given (Biopython keeps them in the order of translation), a part not longer than what is left to remove is dropped,
+   the next one loses the rest at its start (strand 1) or at its end (otherwise), the others are kept.  (Until the repair
+   of FC15d trimmed_orf_over_origin this was FeatureLocation(location.start + k, location.end) resp.
+   (location.start, location.end - k) on the envelope of the location: wrong for an ORF in two parts over the origin.) *)
+Fixpoint trim_parts (l : list part) (remaining : Z) : list part :=
+  match l with
+  | [] => []
+  | p :: r =>
+    let n := pe p - ps p in
+    if n <=? remaining then trim_parts r (remaining - n)
+    else (if pst p =? 1 then mkPart (ps p + remaining) (pe p) (pst p)
+          else mkPart (ps p) (pe p - remaining) (pst p)) :: trim_parts r 0
+  end.
+
+(* get_trimmed_orf(orf, record, include, min_length, max_length) with label=None; the text is NOT upper-cased before the
+   comparison with START_CODONS *)
+Definition get_trimmed_orf (g : list Z) (l : loc) (include max_length : option Z) (min_length : Z)
+  : res (option feature) :=
+  let sq := extract g l in
+  let n := zlen sq in
+  let max_length := match max_length with Some m => m | None => n end in
+  let include := match include with Some i => i | None => n end in
+  if max_length <? min_length then Err E_Value else
+  if n <? min_length then Ok None else
+  if max_length <? n - include then Ok None else
+  let start := Z.max 0 (n - (max_length - max_length mod 3)) in
+  let end_ := Z.min (n - min_length) include in
+  let cands := filter (fun i => codon_in (slice sq i (i + 3)) c15_start_codons)
+                      (map (fun j => start + 3 * Z.of_nat j) (seq 0 (Z.to_nat ((end_ - start + 2) / 3)))) in
+  if existsb (fun i => negb ((min_length <=? n - i) && (n - i <=? max_length))) cands then Err E_Assert else
+  match rev cands with
+  | [] => Ok None
+  | k :: _ => do f <- create_feature g (trim_parts l k); Ok (Some f)
   end.
 
 (* ---------- Feature.__lt__ ---------- *)
@@ -276,6 +328,26 @@ Definition intergenic_for (n : Z) (cds : list loc) (area : option loc) (min_leng
   | None => Ok (find_intergenic_areas 0 n (map gene_span cds) min_length max_overlap)
   end.
 
+(* all_orfs._overlap_size(first, second): sum over the pairs of parts of max(0, min(ends) - max(starts)) *)
+Definition part_shared (a b : part) : Z := Z.max 0 (Z.min (pe a) (pe b) - Z.max (ps a) (ps b)).
+Definition overlap_size (o c : loc) : Z :=
+  fold_right Z.add 0 (flat_map (fun a => map (part_shared a) c) o).
+(* `if area and area.crosses_origin(): existing = _overlapping_cds_features(record, area.location); locations =
+   [location for location in locations if all(_overlap_size(location, cds.location) <= max_overlap for cds in existing)]`
+   (repair of FC15b origin_gene_padding_window: the window joined over the origin carries the allowance of max_overlap
+   bases before the record end AND after the record start, so a gene reaching into both parts of the area could be
+   overlapped by up to twice max_overlap; every ORF found for an origin-crossing area is now tested against every gene
+   overlapping the area) *)
+Definition within_overlap (cds : list loc) (area : option loc) (max_overlap : Z) (locs : list loc) : list loc :=
+  match area with
+  | Some aloc =>
+    if is_compound aloc then
+      let existing := filter (fun c => overlap c aloc) cds in
+      filter (fun l => forallb (fun c => overlap_size l c <=? max_overlap) existing) locs
+    else locs
+  | None => locs
+  end.
+
 Definition area_orfs (g : list Z) (min_length : Z) (a : Z * Z) : list loc :=
   let '(start, end_) := a in
   scan_orfs (window g start end_ 1) 1 start min_length (Some (zlen g)) ++
@@ -285,7 +357,7 @@ Definition find_all_orfs (g : list Z) (cds : list loc) (area : option loc) (min_
   : res (list feature) :=
   do areas <- intergenic_for (zlen g) cds area min_length max_overlap;
   if existsb (fun a => zlen g <? snd a) areas then Err E_Assert else
-  do feats <- mapM (create_feature g) (flat_map (area_orfs g min_length) areas);
+  do feats <- mapM (create_feature g) (within_overlap cds area max_overlap (flat_map (area_orfs g min_length) areas));
   Ok (sort_by (fun a b => feature_lt (floc a) (floc b)) feats).
 
 (* ---------- decidable specification, evaluated on the implementation's output ---------- *)
@@ -351,7 +423,14 @@ Fixpoint starts_sortedb (genes : list (Z * Z)) : bool :=
   | g :: r => forallb (fun h => fst g <=? fst h) r && starts_sortedb r
   end.
 
-(* no gene reaches into both parts of an origin-spanning area (false: class FC15b origin_gene_padding_window) *)
+(* the gene reaches into both parts of an origin-spanning area: the genes for which the areas of the gap search do not
+   bound the overlap (the window joined over the origin has the allowance of both sides) and the test on the ORFs
+   (within_overlap) does; until the repair of FC15b origin_gene_padding_window these inputs were outside the guard *)
+Definition in_both (area : option loc) (c : loc) : bool :=
+  match area with
+  | Some [p1; p2] => overlap c [p1] && overlap c [p2]
+  | _ => false
+  end.
 Definition no_gene_in_both (cds : list loc) (p1 p2 : part) : bool :=
   forallb (fun c => negb (overlap c [p1] && overlap c [p2])) cds.
 
@@ -365,24 +444,23 @@ Definition gaps_wf (n : Z) (cds : list loc) (area : option loc) (min_length max_
   | Some [p1; p2] => (pe p1 =? n) && (ps p2 =? 0) && (0 <? pe p2) && (pe p2 <=? ps p1) && (ps p1 <? n)
   | Some _ => false
   end.
-(* the guard of C15_gaps: well-formed and outside the recorded class FC15b.  (The former second conjunct - the look-up
-   helper misses no gene overlapping an area part, class FC15a area_misses_enclosing_gene - is gone with the repair:
-   cds_within tests every gene, Proofs.cds_within_complete.) *)
-Definition gaps_guard (n : Z) (cds : list loc) (area : option loc) (min_length max_overlap : Z) : bool :=
-  gaps_wf n cds area min_length max_overlap &&
-  match area with
-  | Some [p1; p2] => no_gene_in_both cds p1 p2
-  | _ => true
-  end.
-(* which recorded class an input outside the guard belongs to: 2 = FC15b, 0 = none (1 was FC15a, repaired: never
-   returned any more) *)
+(* gaps_wf is the only hypothesis of C15_gaps.  (The former guard gaps_guard had two more conjuncts: the look-up helper
+   misses no gene overlapping an area part - class FC15a area_misses_enclosing_gene, repaired: cds_within tests every
+   gene, Proofs.cds_within_complete - and no gene reaches into both parts of an origin-spanning area - class FC15b
+   origin_gene_padding_window, repaired: within_overlap tests every ORF of such an area against every gene overlapping
+   the area.)
+   gaps_class is kept as a COVERAGE class only (never a reason to suppress anything): 2 = some gene reaches into both
+   parts of an origin-spanning area (the inputs of the former class FC15b), 0 otherwise *)
 Definition gaps_class (cds : list loc) (area : option loc) : Z :=
   match area with
   | Some [p1; p2] => if no_gene_in_both cds p1 p2 then 0 else 2
   | _ => 0
   end.
 
-Definition acgtb (c : Z) : bool := existsb (Z.eqb c) [65; 67; 71; 84; 97; 99; 103; 116].
+(* the IUPAC DNA letters, both cases: A C G T and the ambiguity codes M R W S Y K V H D B N *)
+Definition iupacb (c : Z) : bool :=
+  existsb (Z.eqb c) [65; 67; 71; 84; 77; 82; 87; 83; 89; 75; 86; 72; 68; 66; 78;
+                     97; 99; 103; 116; 109; 114; 119; 115; 121; 107; 118; 104; 100; 98; 110].
 (* the protein of an ORF text: its codons without the final stop codon translated one by one, first residue M *)
 Definition orf_protein (text : list Z) : list Z :=
   match translate false (firstn (length text - 3) text) with [] => [] | _ :: r => 77 :: r end.
@@ -391,11 +469,11 @@ Definition feature_ok (g : list Z) (cds : list loc) (area : option loc) (max_ove
   forallb (fun c => shared (floc f) c <=? max_overlap) cds &&
   forallb (in_searched (zlen g) area) (positions (floc f)) &&
   zl_eqb (ftrans f) (orf_protein (extract g (floc f))).
-(* [spec_ok; guard; class; genome is ACGT/acgt] *)
+(* [spec_ok; hypotheses of C15_gaps / C15_translation (well-formed, genome of IUPAC letters); coverage class; well-formed] *)
 Definition spec_gaps (g : list Z) (cds : list loc) (area : option loc) (min_length max_overlap : Z)
                      (out : list feature) : list Z :=
   [b2z (forallb (feature_ok g cds area max_overlap) out);
-   b2z (gaps_guard (zlen g) cds area min_length max_overlap && forallb acgtb g);
+   b2z (gaps_wf (zlen g) cds area min_length max_overlap && forallb iupacb g);
    gaps_class cds area; b2z (gaps_wf (zlen g) cds area min_length max_overlap)].
 
 (* ---------- encoding ---------- *)
@@ -420,6 +498,10 @@ Definition run_C15 (fn : Z) (l : list Z) : list Z :=
   | 3 => match dPair (dPair (dList dZ) (dList dLoc)) (dPair (dOpt dLoc) (dPair dZ dZ)) l with
          | Some ((g, cds, (area, (ml, ov))), []) =>
            eRes (eList eFeature) (find_all_orfs g cds area ml ov)
+         | _ => bad_input end
+  | 4 => match dPair (dPair (dList dZ) dLoc) (dPair (dPair (dOpt dZ) (dOpt dZ)) dZ) l with
+         | Some ((g, lo, ((include, max_length), ml)), []) =>
+           eRes (eOpt eFeature) (get_trimmed_orf g lo include max_length ml)
          | _ => bad_input end
   | 12 => match dPair (dPair (dPair (dList dZ) (dList dLoc)) (dPair (dOpt dLoc) (dPair dZ dZ))) (dList dFeature) l with
           | Some (((g, cds, (area, (ml, ov))), out), []) => spec_gaps g cds area ml ov out
